@@ -5,6 +5,7 @@ import (
 	stdgzip "compress/gzip"
 	stdzlib "compress/zlib"
 	"fmt"
+	"hash/crc32"
 	"io"
 	"time"
 
@@ -14,6 +15,7 @@ import (
 	"pgregory.net/rapid"
 
 	"verifharness/gen"
+	"verifharness/refinflate"
 )
 
 // Member is one gzip member / zlib stream written by a real Writer.
@@ -24,6 +26,7 @@ type Member struct {
 	Ops   []gen.Op    `json:"ops,omitempty"` // W/F (nil = one Write)
 	Hdr   *GzHdr      `json:"hdr,omitempty"`
 	Dict  *gen.Recipe `json:"dict,omitempty"` // zlib only
+	HCRC  bool        `json:"hcrc,omitempty"` // gzip: add the optional header CRC16 (no Writer emits it; built by the harness)
 }
 
 type hdrWriter interface {
@@ -87,7 +90,20 @@ func (m Member) build(pkg string) (z []byte, err error) {
 	if err := writeMemberOps(w, m.Data.Bytes(), m.Ops); err != nil {
 		return nil, err
 	}
-	return b.Bytes(), nil
+	z = b.Bytes()
+	if m.HCRC && pkg == "gzip" {
+		g := refinflate.ParseGzip(z, false)
+		if g.Verdict != refinflate.CValid || len(g.Members) != 1 {
+			return nil, fmt.Errorf("harness: cannot add FHCRC: %v", g.Verdict)
+		}
+		hl := g.Members[0].BodyStart
+		hdr := append([]byte(nil), z[:hl]...)
+		hdr[3] |= 2
+		c := crc32.ChecksumIEEE(hdr)
+		out := append(hdr, byte(c), byte(c>>8))
+		z = append(out, z[hl:]...)
+	}
+	return z, nil
 }
 
 func latin1String(t *rapid.T, label string) string {
